@@ -108,6 +108,10 @@ structure St where
   constants : List (String × String) := []
   /-- keys of `skipped_initializers` with their dtype, in insertion order -/
   skipped : List (String × Nat) := []
+  /-- `_names_read`: names read in the current function / main graph (fix 0215218) -/
+  namesRead : List String := []
+  /-- `_local_functions`: Python name ↦ (domain, name) of the function printed under that name (fix 41fb399) -/
+  localFns : List (String × String × String) := []
   /-- `python_names` of `_make_unique_name_mapper` (ONNX name ↦ Python name, insertion order);
       its `used` set is the list of second components -/
   uniq : List (String × String) := []
@@ -389,7 +393,7 @@ def line (indent : Nat) (s : String) : String := "L" ++ Nat.repr indent ++ " " +
 def emitAssign (o : Opts) (indent : Nat) : St → List String → List String → List String × St
   | st, l :: ls, r :: rs =>
     let (a, st) := translateVar o st l
-    let (b, st) := translateVar o st r
+    let (b, st) := translateVarRef o st r   -- a right-hand side may be an inlined constant (fix b124a38)
     let (rest, st) := emitAssign o indent st ls rs
     (line indent ("assign " ++ a ++ " = " ++ b) :: rest, st)
   | st, _, _ => ([], st)
@@ -448,7 +452,9 @@ def translateIf (o : Opts) (recIn : Node → St → R) (n : Node) (indent : Nat)
       | .error e => .error e
       | .ok (el, st) =>
         let (ea, st) := emitAssign o (indent + 1) st n.outs elseB.outputs
-        .ok ([line indent ("if " ++ cond)] ++ tl ++ ta ++ [line indent "else"] ++ el ++ ea, st)
+        -- no output is read anywhere: the (checked) translation is dropped (fix 0215218)
+        if !(n.outs.any (fun x => st.namesRead.contains x)) then .ok ([], st)
+        else .ok ([line indent ("if " ++ cond)] ++ tl ++ ta ++ [line indent "else"] ++ el ++ ea, st)
   | _ => .error .ifAttrs
 
 /-- `_translate_loop`; `d` is the depth to which names inside the body are collected. -/
@@ -461,7 +467,7 @@ def translateLoop (o : Opts) (recIn : Node → St → R) (d : Nat) (n : Node) (i
     | iterVar :: condIn :: formalIns, condOut :: bodyOuts =>
       let (useIter, nIter, st) :=
         if hasInput n 0 then
-          let (r, st) := translateVar o st (n.ins.getD 0 "")
+          let (r, st) := translateVarRef o st (n.ins.getD 0 "")   -- may be an inlined constant (fix b124a38)
           (true, r, st)
         else (isUsedInBody d iterVar body, "None", st)
       let (iterPy, st) := translateVar o st iterVar
@@ -476,6 +482,7 @@ def translateLoop (o : Opts) (recIn : Node → St → R) (d : Nat) (n : Node) (i
       let formalOuts := bodyOuts.take numState
       let actualOuts := n.outs.take numState
       let (rows2, st) := emitAssign o indent st formalIns actualIns
+      let breakLast := useIter && useCond && !hasInput n 1 && !isUsedInBody d condIn body
       let hdr : Except Err (List String × St) :=
         if useIter && !useCond then
           let (r, st) := translateVar o st condIn
@@ -485,7 +492,10 @@ def translateLoop (o : Opts) (recIn : Node → St → R) (d : Nat) (n : Node) (i
                                { st with remaps := ((condOut, r) :: sc) :: rest })
         else if !useIter && useCond then .ok ([line indent ("while " ++ pyCond)], st)
         else if useIter && useCond then
-          .ok ([line indent ("forbreak " ++ iterPy ++ " " ++ nIter ++ " " ++ pyCond)], st)
+          -- fix 413fb60: without an initial condition, and when the body does not read cond_in, the loop is
+          -- printed `for …: <body>; c_in = Not(c_out); <hand-over>; if c_in: break`
+          if breakLast then .ok ([line indent ("for " ++ iterPy ++ " " ++ nIter)], st)
+          else .ok ([line indent ("forbreak " ++ iterPy ++ " " ++ nIter ++ " " ++ pyCond)], st)
         else .error .loopNoStop
       match hdr with
       | .error e => .error e
@@ -493,10 +503,17 @@ def translateLoop (o : Opts) (recIn : Node → St → R) (d : Nat) (n : Node) (i
         match graphBody o recIn body st with
         | .error e => .error e
         | .ok (bl, st) =>
-          let (rows3, st) := if useCond then emitAssign o (indent + 1) st [condIn] [condOut] else ([], st)
-          let (rows4, st) := emitAssign o (indent + 1) st formalIns formalOuts
-          let (rows5, st) := emitAssign o indent st actualOuts formalIns
-          .ok (rows1 ++ rows2 ++ h ++ bl ++ rows3 ++ rows4 ++ rows5, st)
+          let r3 : Except Err (List String × St) :=
+            if breakLast then recIn (.mk "Not" n.domain "" [condOut] [condIn] []) st
+            else if useCond then .ok (emitAssign o (indent + 1) st [condIn] [condOut])
+            else .ok ([], st)
+          match r3 with
+          | .error e => .error e
+          | .ok (rows3, st) =>
+            let (rows4, st) := emitAssign o (indent + 1) st formalIns formalOuts
+            let brk := if breakLast then [line (indent + 1) ("breakif " ++ pyCond)] else []
+            let (rows5, st) := emitAssign o indent st actualOuts formalIns
+            .ok (rows1 ++ rows2 ++ h ++ bl ++ rows3 ++ rows4 ++ brk ++ rows5, st)
     | _, _ => .error .noAttr
 
 /-- output names of a call: `_i` for a missing output, else `_translate_onnx_var` -/
@@ -530,7 +547,11 @@ def translatePlain (o : Opts) (opsets : List (String × Nat)) (n : Node) (indent
       match opsets.lookup n.domain with
       | none => .error .noOpset
       | some ver =>
-        let callee := opsetName n.domain ver ++ "." ++ cleanup n.op
+        -- a call of a function printed above goes through the python function (fix 41fb399)
+        let callee := match st.localFns.lookup (cleanup n.op) with
+          | some (dm, nm) => if dm == n.domain && nm == n.op then cleanup n.op
+                             else opsetName n.domain ver ++ "." ++ cleanup n.op
+          | none => opsetName n.domain ver ++ "." ++ cleanup n.op
         match translateAttrs n.attrs with
         | .error e => .error e
         | .ok attrs =>
